@@ -26,9 +26,48 @@ func recvTypeName(f *ssa.Function) string {
 // inputFuncs: the functions of the decode closure that handle the input bytes
 // (everything except the Outputter implementation, which only receives copies).
 func (p *Prog) inputFuncs() []*ssa.Function {
-	var out []*ssa.Function
+	// The outputter's side of the walker never sees the input buffer: the
+	// methods of JSONOutput and the helpers that only they (transitively) call
+	// work on the output buffer.
+	callers := map[*ssa.Function][]*ssa.Function{}
+	for _, f := range p.moduleFuncs() {
+		for _, b := range f.Blocks {
+			for _, in := range b.Instrs {
+				if call, ok := in.(ssa.CallInstruction); ok {
+					if cal := call.Common().StaticCallee(); cal != nil && cal.Pkg != nil && inModule(cal.Pkg.Pkg) {
+						callers[origin(cal)] = append(callers[origin(cal)], origin(f))
+					}
+				}
+			}
+		}
+	}
+	outSide := map[*ssa.Function]bool{}
 	for _, f := range p.decodeClosure() {
 		if recvTypeName(f) == "JSONOutput" {
+			outSide[f] = true
+		}
+	}
+	for changed := true; changed; {
+		changed = false
+		for _, f := range p.decodeClosure() {
+			if outSide[f] || len(callers[origin(f)]) == 0 || f.Parent() != nil {
+				continue
+			}
+			all := true
+			for _, cl := range callers[origin(f)] {
+				if !outSide[cl] {
+					all = false
+				}
+			}
+			if all {
+				outSide[f] = true
+				changed = true
+			}
+		}
+	}
+	var out []*ssa.Function
+	for _, f := range p.decodeClosure() {
+		if outSide[f] {
 			continue
 		}
 		out = append(out, f)
